@@ -110,8 +110,8 @@ def main():
         "checks": checks,
         "notes": "Entry point ./check <ID> --tier quick|thorough [--replay FILE]; VERIF_SEED seeds every random stage; exit 0 held / 1 VIOLATION / 2 inconclusive (build failure, watchdog). Known findings: KNOWN_FINDINGS.txt.",
     }
-    if na:
-        m["not_applicable"] = na
+    # every listed property is claimed; the list is kept (empty) so that its state is explicit
+    m["not_applicable"] = na
     json.dump(m, open(os.path.join(HERE, "MANIFEST.json"), "w"), indent=1)
     print(f"MANIFEST.json: {len(checks)} checks, {len(na)} not claimed")
 
